@@ -117,6 +117,10 @@ func (c *Class) Evaluation(
 		return err
 	}
 
+	if nextT == nil || nextT.IsNewLineIdentifier() {
+		return fmt.Errorf("syntax error: class name expected")
+	}
+
 	nextFrame := c.getNextFrame(ctx)
 	class := nextT.ToString()
 
@@ -157,6 +161,10 @@ func (c *Class) Evaluation(
 		nextT, err := p.Read()
 		if err != nil {
 			p.Fatal(ctx, err)
+		}
+
+		if nextT == nil || nextT.IsNewLineIdentifier() {
+			return fmt.Errorf("syntax error: superclass name expected")
 		}
 
 		classNode := base.ClassNode{Frame: ctx.GetFrame(), Class: ctx.GetClass()}
